@@ -26,10 +26,10 @@ Touches(l, n) == l.u = n \/ l.v = n
 RECURSIVE BF(_, _, _, _, _)
 BF(links, N, opt, d, k) ==
     IF k = 0 THEN d
-    ELSE LET d2 == [n \in 1..N |->
+    ELSE LET d2 == TLCEval([n \in 1..N |->       \* forced: a lazy function would re-evaluate every earlier round on each access
                      LET via == {d[Other(links[i], n)] + Cost(links[i], opt) : i \in {j \in 1..Len(links) : Touches(links[j], n)}}
                          best == IF via = {} THEN Inf ELSE CHOOSE x \in via : \A y \in via : x <= y
-                     IN MinI(d[n], MinI(best, Inf))]
+                     IN MinI(d[n], MinI(best, Inf))])
          IN BF(links, N, opt, d2, k - 1)
 MinCost(links, N, opt, s, t) == BF(links, N, opt, [n \in 1..N |-> IF n = s THEN 0 ELSE Inf], N)[t]
 
@@ -50,16 +50,17 @@ Dist2(p, q) == (p[1] - q[1]) * (p[1] - q[1]) + (p[2] - q[2]) * (p[2] - q[2])
 (* the network node nearest to a query point (the generators keep it unique) *)
 UsedNodes(links) == {links[i].u : i \in 1..Len(links)} \cup {links[i].v : i \in 1..Len(links)}
 NearestNode(pos, links, q) == CHOOSE n \in UsedNodes(links) : \A m \in UsedNodes(links) : Dist2(pos[n], q) <= Dist2(pos[m], q)
-NearestUnique(pos, links, q) == \A n \in UsedNodes(links), m \in UsedNodes(links) : n # m => Dist2(pos[n], q) # Dist2(pos[m], q)
+NearestUnique(pos, links, q) == LET b == NearestNode(pos, links, q) IN \A m \in UsedNodes(links) : m # b => Dist2(pos[b], q) < Dist2(pos[m], q)
 
 RouteOK(pos, links, opt, from, to, route, dist, time4) ==
     LET s == NearestNode(pos, links, from)
         t == NearestNode(pos, links, to)
         mc == MinCost(links, Cardinality(DOMAIN pos), opt, s, t)
-    IN /\ ChainOK(links, route, s, t)                                  \* a chain from the start node to the end node
-       /\ dist = RouteLen(links, route) /\ time4 = RouteTime4(links, route)     \* reported totals
-       /\ (mc >= Inf \/ s = t => Len(route) = 0)                       \* not connected (or same node): empty
-       /\ (mc < Inf => RouteCost(links, route, opt) = mc)              \* minimal
+    IN IF mc >= Inf \/ s = t
+       THEN Len(route) = 0 /\ dist = 0 /\ time4 = 0                   \* not connected (or the same node): the route is empty
+       ELSE /\ ChainOK(links, route, s, t)                             \* a chain from the start node to the end node
+            /\ dist = RouteLen(links, route) /\ time4 = RouteTime4(links, route)     \* reported totals
+            /\ RouteCost(links, route, opt) = mc                       \* minimal
 
 (* ------------------------------------------------------------------ R2: A* on a line *)
 CONSTANTS Nets,             \* set of networks [pos (x coordinates on a line), links]
